@@ -177,9 +177,13 @@ def compare_analysis(sim, ana, stats=None):
     for n_req, (req, ans) in enumerate(reqs):
         forms = [{}, {"return_magnitudes": False}, {"return_magnitudes": True}]
         forms = forms[n_req % 3:] + forms[:n_req % 3]          # which representation is asked for first varies
-        for kwargs in forms:
+        for n_form, kwargs in enumerate(forms):
             if req is not None:
-                kwargs = dict(kwargs, constraint_ids=list(req))
+                # the requested ids as a list, a tuple, a set, dict keys or an array: only the names matter
+                ids = list(req)
+                cont = (n_req + n_form) % 5
+                ids = (ids, tuple(ids), set(ids), dict.fromkeys(ids).keys(), np.array(ids))[cont]
+                kwargs = dict(kwargs, constraint_ids=ids)
             out = an.constraint_currents(sim, **kwargs)
             what = {"constraint_ids": req, "kwargs": {k: v for k, v in kwargs.items() if k != "constraint_ids"}}
             if set(out) != set(ans):
